@@ -170,7 +170,7 @@ func (msg *Message) RESPBytes() ([]byte, error) {
 			return nil, fmt.Errorf(errorUnknownMessageType, msg.Type)
 		}
 		respBytes.WriteByte(b)
-		respBytes.Write(msg.bytes)
+		respBytes.Write(lineSafeBytes(msg.bytes))
 		respBytes.WriteRune(cr)
 		respBytes.WriteRune(lf)
 	case BulkMessage:
@@ -203,4 +203,22 @@ func (msg *Message) RESPBytes() ([]byte, error) {
 	}
 
 	return respBytes.Bytes(), nil
+}
+
+// lineSafeBytes returns the bytes with every CR and LF replaced by a space.
+// Simple strings, errors and integers are terminated by CRLF and cannot carry
+// line breaks: written verbatim they would end the reply early and let the
+// rest of the text be read as further replies.
+func lineSafeBytes(b []byte) []byte {
+	if bytes.IndexByte(b, cr) < 0 && bytes.IndexByte(b, lf) < 0 {
+		return b
+	}
+	safeBytes := make([]byte, len(b))
+	for n, c := range b {
+		if c == cr || c == lf {
+			c = ' '
+		}
+		safeBytes[n] = c
+	}
+	return safeBytes
 }
